@@ -70,6 +70,7 @@ VERIF_KINDS = [
     ('Resource limit (rlimit) exceeded', 'rlimit'),
     ('could not prove termination', 'decreases'),
     ('index out of bounds', 'bounds'),
+    ('unable to prove post-condition of closure', 'post'),   # annotated closure (R6/R19) whose body no longer meets its `ensures`
 ]
 
 
